@@ -709,4 +709,112 @@ def inDomain (a : Attr) (v : Int) : Bool :=
   | .sizepos => decide (v = 0 ∨ v = 2 ∨ v = 3)
   | _ => decide (v = 0 ∨ v = 1)
 
+/-! ## Part 5 — the contract of the property and the ghost of what the program asked for -/
+
+def textOnly (bs : List Nat) : Bool := bs.all fun b => decide (32 ≤ b ∧ b ≠ 127)
+
+def penInDomain (p : PenMap) : Bool := Attr.all.all fun a => match p a with
+  | some v => inDomain a v
+  | none => true
+
+/-- Arguments the documented API admits: mouse modes `0…3`, text without control bytes, pen values
+    with an exact encoding. -/
+def opOk : Op → Bool
+  | .ctl (some .mouse) v => decide (0 ≤ v ∧ v ≤ 3)
+  | .setstr _ p => textOnly p
+  | .print p => textOnly p
+  | .setpen p => penInDomain p
+  | .chpen p => penInDomain p
+  | _ => true
+
+inductive Phase | running | paused | stopped
+deriving DecidableEq, Repr
+
+/-- The documented protocol: between pause and resume nothing but resume or teardown, after teardown
+    nothing (but destruction). `none`: the history leaves the contract. -/
+def phaseNext : Phase → Op → Option Phase
+  | .running, .pause => some .paused
+  | .running, .teardown => some .stopped
+  | .running, .resume => none
+  | .running, _ => some .running
+  | .paused, .resume => some .running
+  | .paused, .teardown => some .stopped
+  | .paused, _ => none
+  | .stopped, _ => none
+
+/-- Phase after a history that stays inside the contract. -/
+def validFrom : Phase → List Op → Option Phase
+  | ph, [] => some ph
+  | ph, op :: rest => if opOk op then (phaseNext ph op).bind (validFrom · rest) else none
+
+/-- The pen the program has asked for: `setpen p` names every attribute, `chpen p` those present. -/
+def logicalPen (isSet : Bool) (cur pen : PenMap) : PenMap :=
+  fun a => if isSet then some (pen.getD a) else (match pen a with
+    | some v => some v
+    | none => cur a)
+
+/-- What the program last set successfully (booleans as `0/1`), the pen it asked for. -/
+structure Ghost where
+  alt    : Int := 0
+  vis    : Int := 1
+  mouse  : Int := 0
+  keypad : Int := 0
+  blink  : Option Int := none
+  shape  : Option Int := none
+  pen    : PenMap := PenMap.empty
+  doneSetup : Bool := false
+
+def Ghost.set (g : Ghost) (c : Option Ctl) (v : Int) : Ghost :=
+  match c with
+  | some .altscreen => { g with alt := bool01 v }
+  | some .cursorvis => { g with vis := bool01 v }
+  | some .keypadApp => { g with keypad := bool01 v }
+  | some .cursorblink => { g with blink := some (bool01 v) }
+  | some .mouse => { g with mouse := v }
+  | some .cursorshape => { g with shape := if 0 ≤ v ∧ v ≤ 3 then some v else none }
+  | _ => g
+
+/-- Ghost after one operation; `ret` is the call's return value, `ua` what the toplevel instance's
+    `USE_ALTSCREEN` control read before the operation. -/
+def Ghost.step (g : Ghost) (op : Op) (ret : Option Bool) (ua : Int) : Ghost :=
+  match op with
+  | .ctl c v => if ret = some true then g.set c v else g
+  | .setpen p => { g with pen := logicalPen true g.pen p }
+  | .chpen p => { g with pen := logicalPen false g.pen p }
+  | .tick nosetup =>
+    if !g.doneSetup && !nosetup then
+      { g with doneSetup := true, alt := if ua ≠ 0 then 1 else g.alt, vis := 0, mouse := 2, keypad := 1 }
+    else g
+  | _ => g
+
+/-- The terminal shows the modes last set (while running). -/
+def modesShown (m : VModes) (g : Ghost) : Bool :=
+  m.altscreen == decide (g.alt ≠ 0) && m.cursorVisible == decide (g.vis ≠ 0) &&
+  decide ((m.mouse : Int) = modeForMouse g.mouse) && m.sgrMouse == decide (g.mouse ≠ 0) &&
+  m.keypadApp == decide (g.keypad ≠ 0)
+
+/-- The terminal renders with the pen asked for (every attribute asked for, exact encodings). -/
+def penShown (a : Attrs) (pen : PenMap) : Bool :=
+  Attr.all.all fun k => match pen k with
+    | some v => !inDomain k v || a k == sem k v
+    | none => true
+
+/-- The terminal is back in the mode state `m0` and in the default rendition. -/
+def restoredOk (vt : VT) (m0 : VModes) : Bool :=
+  vt.modes.altscreen == m0.altscreen && vt.modes.cursorVisible == m0.cursorVisible &&
+  vt.modes.mouse == m0.mouse && vt.modes.sgrMouse == m0.sgrMouse && vt.modes.keypadApp == m0.keypadApp &&
+  Attr.all.all fun k => vt.attrs k == dflt k
+
+/-- Every control reads back what was last set. -/
+def getctlOk (d : XDrv) (g : Ghost) : Bool :=
+  getctlInt d (some .altscreen) == some g.alt && getctlInt d (some .cursorvis) == some g.vis &&
+  getctlInt d (some .mouse) == some g.mouse && getctlInt d (some .keypadApp) == some g.keypad &&
+  (g.blink.isNone || getctlInt d (some .cursorblink) == g.blink) &&
+  (g.shape.isNone || getctlInt d (some .cursorshape) == g.shape)
+
+/-- The mode state a terminal is assumed to start in (the driver's own assumption): primary screen,
+    cursor visible, no mouse reporting, numeric keypad; blink, shape and DECLRMM are free. -/
+def VModes.standard (m : VModes) : Bool :=
+  !m.altscreen && m.cursorVisible && m.mouse == 0 && !m.sgrMouse && !m.keypadApp
+
 end Tickit.Modes
